@@ -333,10 +333,9 @@ fn xcr_and_msrs(t: &mut T, a: &Args) {
         for extra in [0u64, 1 << 9, 1 << 62, (1 << 9) | (1 << 62)] {
             let f = sub | extra;
             let ok = xcr0_ok(f);
-            if !a.thorough() && !ok && sub % 5 != 0 {
-                continue; // rejected combinations are expensive (panic under stepping): thin in quick
-            }
-            if !a.thorough() && extra != 0 && sub % 16 != 7 {
+            // all 256 subsets of the low flags are always run (every documented rejection rule has one-bit neighbours);
+            // the MPK/LWP extras are thinned in quick (rejected combinations cost a panic under stepping)
+            if !a.thorough() && extra != 0 && (sub % 16 != 7 || !ok) && sub % 37 != 0 {
                 continue;
             }
             let old = if sub % 2 == 0 { 0xffff_ffff_ffff_fc00u64 } else { 0x100 };
@@ -771,8 +770,9 @@ pub fn run(a: &Args) {
             } else if i % a.nshards != a.shard {
                 continue;
             }
-            let _ = n;
-            f(&mut t, a);
+            if catch(|| f(&mut t, a)).is_err() {
+                t.r.viol(&format!("C16|{}|unexpected-panic-outside-a-wrapper-call", n), &format!("reg family {}", n), "a crate call that must not panic panicked");
+            }
         }
     }
     r.states = r.evals;
